@@ -168,6 +168,8 @@ class C03Hook:
     def start(self, w):
         w.late_writes = True
         self.before_snap = None
+        from props import c04
+        self.retained_probe = c04.RetainedProbe(w)   # what earlier commits published for the periodic reports
 
     def before(self, w, script):
         self.before_snap = full_snapshot(w)
@@ -225,6 +227,7 @@ class C03Hook:
                 ctx.fail('committed-transaction-applied-partly', f'left behind: {dangling[:4]}', case)
         for sig, detail in info.get('isolation_failures', []):
             ctx.fail(sig, detail, case)
+        self.retained_probe.check(ctx, case)
         probs = index_problems(w)
         if probs:
             ctx.fail('lookup-inconsistent-after-transaction', '; '.join(probs[:3]), case)
